@@ -40,7 +40,7 @@ def random_data(srid, n, seed):
             v = tuple(round(rnd.uniform(-6.4e6, 6.4e6), 7) for _k in range(3))
         else:
             v = tuple(round(rnd.choice([1, 1e3, 9e5]) * rnd.uniform(-1, 1), 7) for _k in range(3))
-        if any(int(c) == -999999 for c in v[:2]):
+        if any(round(c, 3) == -999999.0 for c in v[:2]):      # the written text would BE the no-data value of the format
             v = (0.5, 0.5, v[2])
         y = rnd.randrange(1971, 2069)
         mo = rnd.randrange(1, 13)
@@ -50,7 +50,10 @@ def random_data(srid, n, seed):
     return out
 
 
-def mk_track(srid, n, salt, data=None):
+NEAR = [-999999.4, -999999.9994, -999999.0625]      # integer part = the reader's no-data value, but ordinary coordinates
+
+
+def mk_track(srid, n, salt, data=None, near="-"):
     from tracklib.core.track import Track
     from tracklib.core.obs import Obs
     from tracklib.core.obs_coords import ENUCoords, GeoCoords, ECEFCoords
@@ -64,6 +67,9 @@ def mk_track(srid, n, salt, data=None):
         else:
             v = vals[(salt + k) % len(vals)]
             s = STAMPS[(salt * 3 + k) % len(STAMPS)]
+        if k == 0 and near != "-":            # the datum the specification marks as near-sentinel (observation 1, E or N)
+            nv = NEAR[salt % len(NEAR)] if data is None else -999999 - (abs(v[0]) % 0.998 + 0.001)
+            v = (nv, v[1], v[2]) if near == "E" else (v[0], nv, v[2])
         obs.append(Obs(ctor(v[0], v[1], v[2]), ObsTime(*s)))
         out.append((v, s))
     return Track(obs), out
@@ -131,7 +137,7 @@ def replay_layout(cases):
                 try:
                     with core.quiet():
                         rdata = random_data(cfg["srid"], len(want), _SEED * 1000003 + ci * 7 + cfg["tf"]) if salt == 2 else None
-                        track, data = mk_track(cfg["srid"], len(want), salt + cfg["e"] + 2 * cfg["n"], rdata)
+                        track, data = mk_track(cfg["srid"], len(want), salt + cfg["e"] + 2 * cfg["n"], rdata, cfg.get("near", "-"))
                         ObsTime.setPrintFormat(PRINT_FMT[cfg["tf"]])
                         path = os.path.join(tmp, "t%d_%d.csv" % (ci, salt))
                         write_csv(track, path, cfg, salt + cfg["tf"])
@@ -154,7 +160,7 @@ def replay_layout(cases):
                             viol.append(("wkt/coordinates", "WKT %s parsed back as %s" % (track.toWKT(), [(back.getObs(k).position.getX(), back.getObs(k).position.getY()) for k in range(back.size())]), cfg))
                     except (Exception, SystemExit) as ex:
                         viol.append(("wkt/raised", "WKT round trip raised %r" % ex, cfg))
-            if [cfg["e"], cfg["n"], cfg["u"], cfg["t"]] != [0, 1, 2, 3]:
+            if [cfg["e"], cfg["n"], cfg["u"], cfg["t"]] != [0, 1, 2, 3] or cfg.get("near", "-") != "-":
                 nontriv.add(json.dumps(cfg, sort_keys=True))
             if ci == 0:
                 samples.append({"cfg": cfg, "want": want})
@@ -163,8 +169,8 @@ def replay_layout(cases):
     return len(cases), viol, nontriv, samples
 
 
-CFG_A = {"e": 0, "n": 1, "u": 2, "t": 3, "sep": "c", "srid": "ENU", "tf": 1}
-CFG_B = {"e": 2, "n": 1, "u": -1, "t": 0, "sep": "s", "srid": "GEO", "tf": 3}
+CFG_A = {"e": 0, "n": 1, "u": 2, "t": 3, "sep": "c", "srid": "ENU", "tf": 1, "near": "-"}
+CFG_B = {"e": 2, "n": 1, "u": -1, "t": 0, "sep": "s", "srid": "GEO", "tf": 3, "near": "-"}
 WANT_FULL = [{"e": ["E", k], "n": ["N", k], "u": ["U", k], "t": ["T", k]} for k in (1, 2, 3)]
 WANT_B = [{"e": ["E", k], "n": ["N", k], "u": ["zero", 0], "t": ["T", k]} for k in (1, 2, 3)]
 
@@ -329,11 +335,11 @@ def mc_cfg(mode, depth, emit, legacy=False, invs=()):
 def run(ctx):
     quick = ctx.tier == "quick"
     depth = 4 if quick else 5
-    ctx.rule = ("TLC: round-trip law on all 1368 (column permutation x separator x coordinate system x time format) configurations, "
+    ctx.rule = ("TLC: round-trip law on all 3192 (column permutation x separator x coordinate system x time format x near-no-data datum) configurations, "
                 "wrong print format garbles only the time field, formats restored after every call on all histories of %d public "
                 "calls over set-format / write / read of two CSV files and one GPX file, network round trip on all networks with "
                 "<= 2 edges x 3 orientations x 2-3 vertices x header 0/1 x 3 separators; refuted variants: ids that are not a "
-                "permutation, missing restore, pinned header loop. Binding: every emitted configuration (2 stress-value tracks "
+                "permutation, missing restore, pinned header loop, pinned integer-part no-data test. Binding: every emitted configuration (2 stress-value tracks "
                 "each, header option 0 and 1, WKT round trip), every emitted history and every emitted network replayed "
                 "through real files; reader output compared with the expectation printed by the model. Non-trivial = distinct "
                 "configurations with a non-identity column order, histories mixing format changes and reads, networks with two "
@@ -341,12 +347,14 @@ def run(ctx):
     ctx.assumptions += ["column ids form a permutation of 0..k-1; the TrackFormat's time format equals the print format in force at write time",
                         "separators ',', ';', tab (none occurs inside a formatted field); header option 0/1 of the track writer writes no header",
                         "GPX is read with the ISO read format set globally, as the test suite does; coordinates compared at the written precision "
-                        "(1 mm metric, 1e-8 degree geographic), timestamps to the second; values whose integer part is the no-data value excluded",
+                        "(1 mm metric, 1e-8 degree geographic), timestamps to the second; values whose WRITTEN text is the no-data value of the format (-999999.000) excluded - the format reserves it",
                         "number formatting fidelity is examined on a finite lattice of stress values plus seeded random values (12 decimals geographic, 7 metric)"]
     ctx.tlc_mc("IOLayout", ctx.write_cfg("IO_l.cfg", mc_cfg("layout", 0, False, invs=("PermutationRoundTrip", "WrongFormatOnlyGarblesTime"))),
                label="layout: round-trip law")
     ctx.tlc_mc("IOLayout", ctx.write_cfg("IO_l2.cfg", mc_cfg("layout", 0, False, invs=("AnyIdsRoundTrip",))),
                label="self-test: non-permutation ids refuted", expect_violation="AnyIdsRoundTrip")
+    ctx.tlc_mc("IOLayout", ctx.write_cfg("IO_l3.cfg", mc_cfg("layout", 0, False, legacy=True, invs=("PermutationRoundTrip",))),
+               label="self-test: integer-part no-data test refuted", expect_violation="PermutationRoundTrip")
     ctx.tlc_mc("IOLayout", ctx.write_cfg("IO_h.cfg", mc_cfg("history", depth, False, invs=("FormatsRestored", "GpxAlwaysIso"))),
                label="histories: formats restored")
     ctx.tlc_mc("IOLayout", ctx.write_cfg("IO_h2.cfg", mc_cfg("history", 3, False, legacy=True, invs=("FormatsRestored",))),
@@ -371,8 +379,8 @@ def run(ctx):
     if n4 != o4.distinct:
         raise core.Machinery("emitted time formats %d != distinct states %d" % (n4, o4.distinct))
     ctx.extra["time_formats_replayed"] = n4
-    if n1 != 1368:
-        raise core.Machinery("expected 1368 emitted layouts, parsed %d" % n1)
+    if n1 != 3192:
+        raise core.Machinery("expected 3192 emitted layouts, parsed %d" % n1)
     if n3 != o3.distinct:
         raise core.Machinery("emitted networks %d != distinct states %d" % (n3, o3.distinct))
     ctx.exhaustive = True
